@@ -215,6 +215,77 @@ func c13agile(r *Run, S, k int) {
 	}
 }
 
+// c13agilen: the cipher text of a conformant document cut to N bytes (any N, block aligned or not):
+// Decrypt must not panic, must return every whole block before the cut correctly.
+func c13agilen(r *Run, N, k int) {
+	op := fmt.Sprintf("agilen %d %d", N, k)
+	r.Stat("op:agilen")
+	S := (N + 15) / 16 * 16
+	plain := c13pat(S, k)
+	res := "PANIC"
+	var dec []byte
+	func() {
+		defer func() { _ = recover() }()
+		names := []string{"EncryptionInfo", "EncryptedPackage"}
+		doc := c13agileDoc(plain, "pw", NewRng(uint64(N)*977+uint64(k)))
+		// re-wrap with the package stream cut to 8+N bytes
+		parts, err := c13Mscfb(doc)
+		if err != nil {
+			res = "ERR-container"
+			return
+		}
+		cut := xl.VerifC13CfbWrite(names, [][]byte{parts[names[0]], parts[names[1]][:8+N]})
+		d, err := xl.Decrypt(cut, &xl.Options{Password: "pw"})
+		if err != nil {
+			res = "err"
+			return
+		}
+		dec, res = d, "ok"
+	}()
+	if res == "ok" {
+		cp := 0
+		for cp < len(dec) && cp < S && dec[cp] == plain[cp] {
+			cp++
+		}
+		g := "full"
+		if cp < S {
+			g = fmt.Sprint(cp / 16 * 16)
+		}
+		res = fmt.Sprintf("out=%d good=%s spec=1", len(dec), g)
+	}
+	ln := r.Op(op, res)
+	r.Case(op, N > 0)
+	rr := N % 4096
+	switch {
+	case rr == 0:
+		r.Stat("agilen:r=0")
+	case rr <= 7:
+		r.Stat("agilen:r=1..7")
+	case rr <= 4088:
+		r.Stat("agilen:r=8..4088")
+	default:
+		r.Stat("agilen:r=4089..4095")
+	}
+	if N%16 == 0 {
+		r.Stat("agilen:block-aligned")
+	} else {
+		r.Stat("agilen:unaligned")
+	}
+	if res == "PANIC" || res == "err" || res == "ERR-container" {
+		r.Fail("agile:decrypt-failed", fmt.Sprintf("Decrypt of an agile document with %d bytes of cipher text: %s", N, res), ln, op)
+	}
+}
+
+func c13agilenSizes() []int {
+	var s []int
+	for _, q := range []int{0, 1, 2, 5} {
+		for _, rr := range []int{0, 1, 4, 7, 8, 9, 15, 16, 17, 2048, 4080, 4087, 4088, 4089, 4092, 4095} {
+			s = append(s, 4096*q+rr)
+		}
+	}
+	return s
+}
+
 func c13agileSizes(rng *Rng, thorough bool) []int {
 	s := []int{4096, 0, 1, 15, 16, 17, 100, 4079, 4080, 4081, 4088, 4095, 4097, 4111, 4112, 4113, 8175, 8176, 8177, 8191, 8192, 8193,
 		12272, 12287, 12288, 12289, 40944, 40960, 40961}
